@@ -129,8 +129,13 @@ pub struct Case {
     pub commitments: Vec<P>,
 }
 
+/// v*H + sum r_k*G_k computed by the harness itself (not by the library's `commit`, which is under test in C17)
 pub fn commit(pc: &PedersenGens<P>, v: u64, bl: &[Scalar]) -> P {
-    pc.commit(&Scalar::from(v), bl).expect("commit")
+    let mut c = RefGroup::times(&pc.h_base, &Scalar::from(v));
+    for (k, r) in bl.iter().enumerate() {
+        c = RefGroup::plus(&c, &RefGroup::times(&pc.g_base_vec[k], r));
+    }
+    c
 }
 
 impl Case {
@@ -180,12 +185,16 @@ impl Case {
         .expect("valid witness")
     }
 
+    pub fn try_witness(&self) -> Result<RangeWitness, ProofError> {
+        RangeWitness::init((0..self.cfg.m).map(|j| CommitmentOpening::new(self.values[j], self.blindings[j].clone())).collect())
+    }
+
     pub fn transcript(&self) -> Transcript {
         self.ctx.transcript()
     }
 
     pub fn prove(&self, rng: &mut (impl RngCore + CryptoRng)) -> Result<Proof, ProofError> {
-        RangeProof::prove_with_rng(&mut self.transcript(), &self.statement(), &self.witness(), rng)
+        RangeProof::prove_with_rng(&mut self.transcript(), &self.statement(), &self.try_witness()?, rng)
     }
 
     pub fn ref_statement(&self) -> RefStatement<P> {
@@ -553,6 +562,24 @@ pub fn mutations(case: &Case, parts: &Parts, other: Option<&Parts>, density: usi
                     Alter::Proof(p),
                 );
             }
+        }
+    }
+    // the same point in a non-canonical encoding: top bit of the 32-byte string set
+    {
+        let pos = rot % n_pt;
+        let mut p = parts.clone();
+        let (name, slot): (String, &mut [u8; 32]) = match pos {
+            0 => ("A".into(), &mut p.a),
+            1 => ("A1".into(), &mut p.a1),
+            2 => ("B".into(), &mut p.b),
+            k => {
+                let j = (k - 3) / 2;
+                if (k - 3) % 2 == 0 { (format!("L[{j}]"), &mut p.lr[j].0) } else { (format!("R[{j}]"), &mut p.lr[j].1) }
+            },
+        };
+        slot[31] |= 0x80;
+        if p != *parts {
+            pushm(&mut v, format!("proof.{name} -> same bytes with the top bit set"), Alter::Proof(p));
         }
     }
     // swap L_j <-> L_j'
